@@ -81,8 +81,9 @@ public:
         std::unique_lock<std::mutex> lk(m);
         std::size_t n = std::strlen(tag);
         bool isUnlock = n >= 7 && std::strcmp(tag + n - 7, ".unlock") == 0;
-        if (isUnlock) {  // releases are not scheduling points; just bookkeeping
-            held.erase(addr);
+        bool isAcquired = n >= 9 && std::strcmp(tag + n - 9, ".acquired") == 0;
+        if (isAcquired) {  // report of a successful try_lock (or of a lock already taken): bookkeeping only
+            held[addr] = t;
             return;
         }
         state[t] = PARKED;
@@ -90,14 +91,16 @@ public:
         parkedAddr[t] = addr;
         cv.notify_all();
         cv.wait(lk, [&] { return state[t] == RUNNING; });
-        bool isLock = n >= 5 && std::strcmp(tag + n - 5, ".lock") == 0;
+        bool isLock = n >= 5 && std::strcmp(tag + n - 5, ".lock") == 0 && !(n >= 9 && std::strcmp(tag + n - 9, ".try_lock") == 0);
         if (isLock) held[addr] = t;
+        if (isUnlock) held.erase(addr);  // a release is a scheduling point too; it takes effect when the thread is resumed
     }
 
     bool runnable(int t) {
         if (state[t] != PARKED) return false;
         const std::string& tag = parkedTag[t];
-        if (tag.size() >= 5 && tag.compare(tag.size() - 5, 5, ".lock") == 0) {
+        const bool tryLock = tag.size() >= 9 && tag.compare(tag.size() - 9, 9, ".try_lock") == 0;
+        if (!tryLock && tag.size() >= 5 && tag.compare(tag.size() - 5, 5, ".lock") == 0) {
             auto it = held.find(parkedAddr[t]);
             if (it != held.end() && it->second != t) return false;
         }
